@@ -11,6 +11,8 @@ use uv::Serialize;
 
 mod spec;
 mod codec;
+mod hc;
+mod rate;
 
 fn main() {
     let args: Vec<String> = std::env::args().collect();
@@ -28,20 +30,53 @@ fn main() {
     let stdout = std::io::stdout();
     let mut out = std::io::BufWriter::with_capacity(1 << 20, stdout.lock());
 
+    let mut hc_state = hc::State::new();
+    let mut rate_state = rate::State::new();
+
+    // Hang watchdog: a script line that makes no progress for HANG_MS is reported and the process
+    // exits with code 3 (the orchestrator restarts the remaining cases).
+    let progress = std::sync::Arc::new(std::sync::atomic::AtomicU64::new(0));
+    {
+        let progress = progress.clone();
+        std::thread::spawn(move || {
+            let mut last = 0u64;
+            let mut stuck_ms = 0u64;
+            loop {
+                std::thread::sleep(std::time::Duration::from_millis(100));
+                let cur = progress.load(std::sync::atomic::Ordering::Relaxed);
+                if cur == u64::MAX { return; }
+                if cur == last { stuck_ms += 100; } else { stuck_ms = 0; last = cur; }
+                if stuck_ms >= 4000 {
+                    // stdout is locked by the main thread; write the marker to fd 1 directly after its buffer is lost.
+                    eprintln!("HANG");
+                    std::process::exit(3);
+                }
+            }
+        });
+    }
+
     for line in input.lines() {
         let line = line.expect("read line");
         let toks: Vec<&str> = line.split_whitespace().collect();
         if toks.is_empty() {
             continue;
         }
+        progress.fetch_add(1, std::sync::atomic::Ordering::Relaxed);
         if toks[0] == "case" {
             writeln!(out, "{}", line).unwrap();
+            hc_state.reset();
+            rate_state.reset();
             continue;
         }
+        // flush before each op so that everything observed before a hang is kept
+        if mode != "codec" { out.flush().unwrap(); }
         match mode.as_str() {
             "codec" => codec::op(&toks, &mut out),
+            "hc" => hc_state.op(&toks, &mut out),
+            "rate" => rate_state.op(&toks, &mut out),
             _ => panic!("unknown mode"),
         }
     }
     out.flush().unwrap();
+    progress.store(u64::MAX, std::sync::atomic::Ordering::Relaxed);
 }
